@@ -347,7 +347,29 @@ func (s *fmtSide) rangeBound(x ast.Expr) string {
 			return s.resolveBoundStr(l)
 		}
 	}
+	// an element made with a known length (`rows[i] = make([]T, n)`, the only assignment to rows[i]): ranging over it runs n times
+	if _, isIdx := x.(*ast.IndexExpr); isIdx {
+		if l, ok := s.MakesByExpr[exprStr(x)]; ok && s.assignCount(exprStr(x)) == 1 {
+			return s.resolveBoundStr(l)
+		}
+	}
 	return exprStr(x)
+}
+
+// assignCount: how many assignments of the function have the printed left-hand side lhs.
+func (s *fmtSide) assignCount(lhs string) int {
+	n := 0
+	ast.Inspect(s.Decl.Body, func(m ast.Node) bool {
+		if as, ok := m.(*ast.AssignStmt); ok {
+			for _, l := range as.Lhs {
+				if exprStr(l) == lhs {
+					n++
+				}
+			}
+		}
+		return true
+	})
+	return n
 }
 
 func (s *fmtSide) resolveBoundStr(l string) string {
